@@ -46,12 +46,15 @@ impl std::io::Write for CapWriter {
     }
 }
 
+/// The code under test (targets `throttlecrab*`) logs at TRACE, the most verbose level: argument
+/// formatting inside its `debug!` / `trace!` calls only runs when such a level is enabled.  Everything
+/// else (hyper, h2, tonic ...) stays at ERROR.  The clean code logs 2-3 lines per connection, which costs
+/// nothing measurable.
 pub fn install_trace_capture() {
-    let _ = tracing_subscriber::fmt()
-        .with_writer(|| CapWriter)
-        .with_ansi(false)
-        .with_max_level(tracing::Level::ERROR)
-        .try_init();
+    use tracing_subscriber::layer::SubscriberExt;
+    use tracing_subscriber::util::SubscriberInitExt;
+    let filter = tracing_subscriber::filter::Targets::new().with_default(tracing::Level::ERROR).with_target("throttlecrab", tracing::Level::TRACE);
+    let _ = tracing_subscriber::registry().with(tracing_subscriber::fmt::layer().with_writer(|| CapWriter).with_ansi(false)).with(filter).try_init();
 }
 
 pub fn trace_lines_for(addr: &str) -> Vec<String> {
@@ -60,6 +63,11 @@ pub fn trace_lines_for(addr: &str) -> Vec<String> {
         .filter(|l| l.contains(&format!("{addr} ")) || l.contains(&format!("{addr}:")) || l.ends_with(addr))
         .cloned()
         .collect()
+}
+
+pub fn purge_trace_for(addr: &str) {
+    let mut t = TRACE.lock().unwrap();
+    t.retain(|l| !(l.contains(&format!("{addr} ")) || l.contains(&format!("{addr}:")) || l.ends_with(addr)));
 }
 
 pub fn free_port() -> u16 {
@@ -93,9 +101,17 @@ impl ConnResult {
 /// one real connection; `chunks` written one by one; `hint` = output length after which a short
 /// idle period is enough to call the connection quiet
 pub async fn run_conn(port: u16, chunks: &[Vec<u8>], hint: Option<usize>) -> ConnResult {
+    run_conn_tail(port, chunks, hint, None).await
+}
+
+/// `tail` = the reply to the LAST command of the stream, when the caller knows it: output that ends
+/// with it is complete, so the short idle period applies as it does once `hint` is reached
+pub async fn run_conn_tail(port: u16, chunks: &[Vec<u8>], hint: Option<usize>, tail: Option<&[u8]>) -> ConnResult {
     let sock = TcpStream::connect(("127.0.0.1", port)).await.unwrap();
     sock.set_nodelay(true).unwrap();
     let local = sock.local_addr().unwrap().to_string();
+    // ephemeral ports are reused: forget what an EARLIER connection from this address logged
+    purge_trace_for(&local);
     let (mut rd, mut wr) = sock.into_split();
     let got: Arc<Mutex<Vec<u8>>> = Arc::new(Mutex::new(vec![]));
     let closed = Arc::new(AtomicBool::new(false));
@@ -148,8 +164,10 @@ pub async fn run_conn(port: u16, chunks: &[Vec<u8>], hint: Option<usize>) -> Con
             last_len = l;
             last_change = Instant::now();
         }
+        let complete = tail.map(|t| got.lock().unwrap().ends_with(t)).unwrap_or(false);
         let idle = match hint {
             Some(h) if l >= h => Duration::from_millis(15),
+            _ if complete => Duration::from_millis(15),
             _ => Duration::from_millis(200),
         };
         if last_change.elapsed() >= idle {
@@ -197,6 +215,9 @@ struct Stream {
     max_frame: usize,
     eof_at_end: bool,
     kind: &'static str,
+    /// (start, end) of every command; only filled by the kinds whose chunkings are placed
+    /// relative to the command boundaries (`long`, `split2`, `args`)
+    cmds: Vec<(usize, usize)>,
 }
 
 fn cmd_bytes(parts: &[&[u8]]) -> Vec<u8> {
@@ -209,8 +230,99 @@ fn cmd_bytes(parts: &[&[u8]]) -> Vec<u8> {
     v
 }
 
+/// the kinds with MANY small commands on one connection, in fixed slots of every 16 cases so
+/// that a quick run (`--n 60`) has 4 `long`, 4 `split2` and 3 `args` streams whatever the seed
+fn many_kind(case: usize) -> Option<&'static str> {
+    match case % 16 {
+        3 => Some("long"),
+        8 => Some("split2"),
+        13 => Some("args"),
+        _ => None,
+    }
+}
+
+/// a tag of exactly `len` ASCII bytes that differs from its neighbours' tags: the low base-36
+/// digits of the command index, then seed-chosen filler
+fn tag_of(rng: &mut Rng, i: usize, len: usize) -> String {
+    const D: &[u8] = b"0123456789abcdefghijklmnopqrstuvwxyz";
+    let mut digits = vec![];
+    let mut x = i;
+    loop {
+        digits.push(D[x % 36]);
+        x /= 36;
+        if x == 0 {
+            break;
+        }
+    }
+    // low digit first: a short tag keeps the digits that change from one command to the next
+    let mut t: Vec<u8> = digits.into_iter().take(len).collect();
+    while t.len() < len {
+        t.push(if t.len() % 7 == 3 { b'_' } else { D[10 + rng.below(26) as usize] });
+    }
+    String::from_utf8(t).unwrap()
+}
+
+/// `long`: 70..120 KB of small commands (`PING <tag>`, tag 1..40 bytes, a few bare PINGs and unknown
+/// commands) - far more than 64 KiB on ONE connection although no frame is larger than ~70 bytes.
+/// `split2` / `args`: 200..320 small commands (PING, malformed-arity THROTTLE that never reaches the
+/// limiter, a few unknown commands); the chunkings cut every single one of them.
+fn gen_many(rng: &mut Rng, case: usize, kind: &'static str) -> Stream {
+    let target = if kind == "long" { rng.range(70_000, 120_000) as usize } else { usize::MAX };
+    let ncmd = if kind == "long" { usize::MAX } else { rng.range(200, 320) as usize };
+    let mut bytes = vec![];
+    let mut expect = vec![];
+    let mut cmds = vec![];
+    let mut max_frame = 0usize;
+    let mut i = 0usize;
+    while bytes.len() < target && i < ncmd {
+        let r = rng.below(100);
+        let (ping_tag, bare_ping, throttle) = if kind == "long" { (94, 96, 96) } else { (50, 56, 94) };
+        let f = if r < ping_tag {
+            let tag = if kind != "long" && rng.chance(1, 6) {
+                // multi-byte characters and CR LF inside the payload
+                rng.pick(&[format!("é{case}ü{i}日本"), format!("t{i}\r\nx"), format!("{i}\r"), "é".to_string()])
+            } else {
+                let len = rng.range(1, 40) as usize;
+                tag_of(rng, i, len)
+            };
+            expect.push(Expect::Bulk(tag.clone()));
+            cmd_bytes(&[rng.pick(&["PING", "PING", "ping", "Ping"]).as_bytes(), tag.as_bytes()])
+        } else if r < bare_ping {
+            expect.push(Expect::Pong);
+            cmd_bytes(&[b"PING"])
+        } else if r < throttle {
+            // wrong number of arguments: refused by the handler, never forwarded
+            expect.push(Expect::Error);
+            let all: [&[u8]; 8] = [b"THROTTLE", b"key", b"2", b"1", b"60", b"1", b"1", b"1"];
+            let total = rng.pick(&[1usize, 2, 3, 4, 7, 8]);
+            let mut parts: Vec<&[u8]> = all[..total].to_vec();
+            if rng.chance(1, 3) {
+                parts[0] = b"throttle";
+            }
+            cmd_bytes(&parts)
+        } else {
+            expect.push(Expect::Error);
+            cmd_bytes(&[rng.pick(&["GET", "SET", "hello", "THROTTLES"]).as_bytes(), tag_of(rng, i, 3).as_bytes()])
+        };
+        max_frame = max_frame.max(f.len());
+        cmds.push((bytes.len(), bytes.len() + f.len()));
+        bytes.extend(f);
+        i += 1;
+    }
+    // the last command is a PING whose reply cannot be mistaken for an earlier one
+    let sentinel = format!("end-of-stream-{case}-{i}");
+    let f = cmd_bytes(&[b"PING", sentinel.as_bytes()]);
+    expect.push(Expect::Bulk(sentinel));
+    cmds.push((bytes.len(), bytes.len() + f.len()));
+    bytes.extend(f);
+    Stream { bytes, expect, max_frame, eof_at_end: false, kind, cmds }
+}
+
 fn gen_stream(rng: &mut Rng, case: usize) -> Stream {
-    let kind = rng.pick(&["plain", "plain", "plain", "quit", "bad", "oversize", "big", "partial", "eof", "eofmid", "plain1", "edge"]);
+    if let Some(kind) = many_kind(case) {
+        return gen_many(rng, case, kind);
+    }
+    let kind = rng.pick(&["plain", "plain", "plain", "quit", "bad", "oversize", "big", "partial", "eof", "eofmid", "plain1"]); // no "edge" frames (64513..65536 bytes): whether they overflow depends on where the kernel lets the reads fall, which the harness cannot pin down (see DESIGN §6, observations)
     let ncmd = if kind == "plain1" { 1 } else { rng.range(1, 40) as usize };
     let special_at = rng.below(ncmd as u64 + 1) as usize;
     let mut bytes = vec![];
@@ -344,7 +456,7 @@ fn gen_stream(rng: &mut Rng, case: usize) -> Stream {
     if kind == "eof" {
         eof_at_end = true;
     }
-    Stream { bytes, expect, max_frame, eof_at_end, kind }
+    Stream { bytes, expect, max_frame, eof_at_end, kind, cmds: vec![] }
 }
 
 fn chunk_random(rng: &mut Rng, b: &[u8], max: usize) -> Vec<Vec<u8>> {
@@ -397,6 +509,110 @@ fn chunk_fixed(b: &[u8], k: usize) -> Vec<Vec<u8>> {
     b.chunks(k).map(|c| c.to_vec()).collect()
 }
 
+/// random chunk sizes lo..=hi
+fn chunk_sizes(rng: &mut Rng, b: &[u8], lo: usize, hi: usize) -> Vec<Vec<u8>> {
+    let mut v = vec![];
+    let mut i = 0;
+    while i < b.len() {
+        let e = (i + rng.range(lo as i64, hi as i64) as usize).min(b.len());
+        v.push(b[i..e].to_vec());
+        i = e;
+    }
+    v
+}
+
+/// every chunk (300..~1000 bytes) ends k = 1..10 bytes INTO the next command: no write ends on a
+/// command boundary except the last one
+fn chunk_into_next(rng: &mut Rng, b: &[u8], cmds: &[(usize, usize)]) -> Vec<Vec<u8>> {
+    let mut v = vec![];
+    let mut pos = 0usize;
+    loop {
+        let target = pos + rng.range(300, 940) as usize;
+        // first command that starts at or after `target`
+        let j = cmds.partition_point(|c| c.0 < target);
+        if j >= cmds.len() {
+            v.push(b[pos..].to_vec());
+            break;
+        }
+        let (s, e) = cmds[j];
+        let k = (rng.range(1, 10) as usize).min(e - s - 1);
+        v.push(b[pos..s + k].to_vec());
+        pos = s + k;
+    }
+    v.retain(|c| !c.is_empty());
+    v
+}
+
+/// where the parts of one command built by `cmd_bytes` lie (offsets inside the command)
+struct Layout {
+    hdr_end: usize,
+    /// (start, end of the `$len\r\n` header, end of the payload, end after the CR LF)
+    elems: Vec<(usize, usize, usize, usize)>,
+}
+
+fn layout(c: &[u8]) -> Layout {
+    let crlf = |from: usize| (from..c.len() - 1).find(|&i| c[i] == b'\r' && c[i + 1] == b'\n').unwrap();
+    let num = |a: usize, z: usize| std::str::from_utf8(&c[a..z]).unwrap().parse::<usize>().unwrap();
+    let h = crlf(0);
+    let n = num(1, h);
+    let hdr_end = h + 2;
+    let mut elems = vec![];
+    let mut pos = hdr_end;
+    for _ in 0..n {
+        let e = crlf(pos);
+        let len = num(pos + 1, e);
+        elems.push((pos, e + 2, e + 2 + len, e + 2 + len + 2));
+        pos = e + 2 + len + 2;
+    }
+    assert_eq!(pos, c.len());
+    Layout { hdr_end, elems }
+}
+
+/// every command is written in exactly TWO writes; the cut is placed right after the `*N\r\n` header,
+/// inside it, inside a bulk header (also between its CR and LF), inside a payload, between the CR and
+/// LF that end a payload, or anywhere
+fn chunk_split2(rng: &mut Rng, b: &[u8], cmds: &[(usize, usize)]) -> Vec<Vec<u8>> {
+    let mut v = vec![];
+    for &(s, e) in cmds {
+        let c = &b[s..e];
+        let l = layout(c);
+        let el = l.elems[rng.below(l.elems.len() as u64) as usize];
+        let off = match rng.below(8) {
+            0 => l.hdr_end,
+            1 => rng.range(1, l.hdr_end as i64 - 1) as usize,
+            2 => rng.range(el.0 as i64 + 1, el.1 as i64 - 1) as usize,
+            3 => el.1 - 1,
+            4 | 5 if el.2 - el.1 >= 2 => rng.range(el.1 as i64 + 1, el.2 as i64 - 1) as usize,
+            4 | 5 => el.1,
+            6 => el.2 + 1,
+            _ => rng.range(1, c.len() as i64 - 1) as usize,
+        }
+        .clamp(1, c.len() - 1);
+        v.push(c[..off].to_vec());
+        v.push(c[off..].to_vec());
+    }
+    v
+}
+
+/// every ARGUMENT is a write of its own: the cuts fall exactly on the element boundaries (the `*N\r\n`
+/// header goes alone or together with the first element)
+fn chunk_args(rng: &mut Rng, b: &[u8], cmds: &[(usize, usize)]) -> Vec<Vec<u8>> {
+    let mut v = vec![];
+    for &(s, e) in cmds {
+        let c = &b[s..e];
+        let l = layout(c);
+        let alone = rng.chance(1, 2);
+        if alone {
+            v.push(c[..l.hdr_end].to_vec());
+        }
+        for (i, el) in l.elems.iter().enumerate() {
+            let from = if i == 0 && !alone { 0 } else { el.0 };
+            v.push(c[from..el.3].to_vec());
+        }
+    }
+    v
+}
+
 fn rconn_line(chunks: &[Vec<u8>]) -> String {
     let mut s = String::from("rconn");
     for c in chunks {
@@ -439,11 +655,29 @@ pub fn run(seed: u64, n: usize, out: &mut Out) {
         for case in 0..n {
             let st = gen_stream(&mut rng, case);
             out.bump(&format!("streams_{}", st.kind));
-            let mut chunkings: Vec<(&str, Vec<Vec<u8>>)> = vec![
-                ("random", chunk_random(&mut rng, &st.bytes, 1024)),
-                ("nasty", chunk_nasty(&mut rng, &st.bytes)),
-            ];
-            if st.kind == "edge" {
+            let mut chunkings: Vec<(&str, Vec<Vec<u8>>)> = match st.kind {
+                // cuts that are deliberately NOT aligned with the command boundaries
+                "long" => vec![
+                    ("coprime", chunk_fixed(&st.bytes, rng.pick(&[1000usize, 1021, 997, 515]))),
+                    ("300..1024", chunk_sizes(&mut rng, &st.bytes, 300, 1024)),
+                    ("into-next", chunk_into_next(&mut rng, &st.bytes, &st.cmds)),
+                ],
+                "split2" => vec![
+                    ("split2", chunk_split2(&mut rng, &st.bytes, &st.cmds)),
+                    ("split2", chunk_split2(&mut rng, &st.bytes, &st.cmds)),
+                    ("1024", chunk_fixed(&st.bytes, 1024)),
+                ],
+                "args" => vec![
+                    ("args", chunk_args(&mut rng, &st.bytes, &st.cmds)),
+                    ("split2", chunk_split2(&mut rng, &st.bytes, &st.cmds)),
+                    ("1021", chunk_fixed(&st.bytes, 1021)),
+                ],
+                _ => vec![("random", chunk_random(&mut rng, &st.bytes, 1024)), ("nasty", chunk_nasty(&mut rng, &st.bytes))],
+            };
+            if !st.cmds.is_empty() {
+                out.add(&format!("commands_{}", st.kind), st.cmds.len() as u64);
+                out.add(&format!("bytes_{}", st.kind), st.bytes.len() as u64);
+            } else if st.kind == "edge" {
                 let first = rng.range(1, 1023) as usize;
                 let mut c = vec![st.bytes[..first.min(st.bytes.len())].to_vec()];
                 c.extend(chunk_fixed(&st.bytes[first.min(st.bytes.len())..], 1024));
@@ -456,12 +690,19 @@ pub fn run(seed: u64, n: usize, out: &mut Out) {
             }
             let mut results: Vec<(String, ConnResult)> = vec![];
             let mut hint = None;
+            // the many-command kinds end with `PING <sentinel>`: once the output ends with the reply to
+            // it, every earlier reply has arrived (TCP keeps the order) and the short idle period is
+            // enough - also for the first run, which has no output length to go by yet
+            let tail: Option<Vec<u8>> = match (st.cmds.is_empty(), st.expect.last()) {
+                (false, Some(Expect::Bulk(t))) => Some(format!("${}\r\n{t}\r\n", t.len()).into_bytes()),
+                _ => None,
+            };
             for (name, mut ch) in chunkings {
                 if st.eof_at_end {
                     ch.push(vec![]);
                 }
                 let line = rconn_line(&ch);
-                let r = run_conn(port, &ch, hint).await;
+                let r = run_conn_tail(port, &ch, hint, tail.as_deref()).await;
                 if hint.is_none() {
                     hint = Some(r.written.len());
                 }
@@ -469,7 +710,9 @@ pub fn run(seed: u64, n: usize, out: &mut Out) {
                 out.bump("connections");
                 out.bump(&format!("end_{}", r.end));
                 out.add("chunks", ch.len() as u64);
-                let _ = name;
+                if !st.cmds.is_empty() {
+                    out.add(&format!("chunks_{}_{name}", st.kind), ch.len() as u64);
+                }
                 results.push((line, r));
             }
             // C13: the result does not depend on the chunking
